@@ -692,8 +692,22 @@ func (w *World) DrawAction(rt *rapid.T, p *Profile) (Action, string) {
 			tp, _ := w.drawTargetPods(rt, g, "aboveS", "farAboveS")
 			f := sim.Fault{Kind: sim.ADescribeInst, Nth: rapid.IntRange(0, 2).Draw(rt, "nth"), Count: rapid.SampledFrom([]int{1, 1, 2, 5}).Draw(rt, "count"),
 				Code: rapid.SampledFrom([]string{"InvalidInstanceID.NotFound", "InvalidInstanceID.NotFound", "InvalidInstanceID.Malformed", "", "Throttling", "shape:no-reservation", "shape:empty-reservation"}).Draw(rt, "code")}
-			return Action{Op: "seq", Seq: []Action{tp, {Op: "scan", Flag: true}, {Op: "reconcile", Group: g}, {Op: "register", Group: g},
-				{Op: "advance", D: cd + time.Second}, {Op: "fault", Faults: []sim.Fault{f}}, {Op: "scan", Flag: true}, {Op: "scan", Flag: true}}}, "lagLookup"
+			seq := []Action{tp, {Op: "scan", Flag: true}, {Op: "reconcile", Group: g}, {Op: "register", Group: g},
+				{Op: "advance", D: cd + time.Second}, {Op: "fault", Faults: []sim.Fault{f}}, {Op: "scan", Flag: true}, {Op: "scan", Flag: true}}
+			// ... and later the group drops below its minimum (the cloud group's minimum is raised, or the older nodes are
+			// cordoned), recovers, and the scan after that cool-down looks the same nodes up again
+			if rapid.IntRange(0, 2).Draw(rt, "dipLater") > 0 {
+				if asg := w.ASG(g); o.MinNodes == 0 && o.MaxNodes == 0 && asg != nil {
+					seq = append(seq, Action{Op: "asgEdit", Group: g, N: int(asg.Max), M: int(asg.Max)})
+				} else {
+					for _, n := range w.GroupNodeNames(g) {
+						seq = append(seq, Action{Op: "cordon", Node: n, Flag: true})
+					}
+				}
+				seq = append(seq, Action{Op: "scan", Flag: true}, Action{Op: "reconcile", Group: g}, Action{Op: "register", Group: g},
+					Action{Op: "advance", D: cd + time.Second}, Action{Op: "scan", Flag: true})
+			}
+			return Action{Op: "seq", Seq: seq}, "lagLookup"
 		}
 	case "goneTaintedBelowMin": // inside a cool-down the group drops below its minimum with tainted nodes around; one of them is deleted before the node cache notices; the first scan after the cool-down recovers
 		o := &w.Cfg.Groups[g].Opts
@@ -1224,6 +1238,45 @@ func (w *World) DrawAction(rt *rapid.T, p *Profile) (Action, string) {
 			{Op: "addPods", Group: g, Pods: []PodSpec{{Group: g, Via: via, CPU: int64(rapid.IntRange(1, 3000).Draw(rt, "cpu")), Mem: int64(rapid.IntRange(1, 4000).Draw(rt, "mem")) * 1_000_000}}},
 			{Op: "scan", Flag: true},
 		}}, "tinyThenZero"
+	case "annotatedWhileDraining": // a tainted node past its soft grace still runs a pod and a scan has looked at it; then its owner annotates it; later it empties or the hard grace passes
+		o := &w.Cfg.Groups[g].Opts
+		names := w.GroupNodeNames(g)
+		soft, hard := Dur(o.SoftDeleteGracePeriod), Dur(o.HardDeleteGracePeriod)
+		if len(names) > 0 && hard > soft+3*time.Second {
+			x := rapid.SampledFrom(names).Draw(rt, "node")
+			via := "selector"
+			if o.Name == controller.DefaultNodeGroup {
+				via = "none"
+			}
+			seq := []Action{{Op: "taint", Node: x, Key: ref.TaintKey, Val: fmt.Sprint(time.Now().Add(-soft - time.Second).Unix()), Effect: "NoSchedule"},
+				{Op: "addPods", Group: g, Pods: []PodSpec{{Group: g, Via: via, CPU: 100, Mem: 1_000_000, Node: x, Tolerate: "all"}}},
+				{Op: "scan", Flag: true},
+				{Op: "annotate", Node: x, Val: rapid.SampledFrom([]string{"keep", "true", "false", " "}).Draw(rt, "val")}}
+			if rapid.Bool().Draw(rt, "empties") {
+				seq = append(seq, Action{Op: "clearNode", Node: x}, Action{Op: "advance", D: time.Second})
+			} else {
+				seq = append(seq, Action{Op: "advance", D: hard - soft + time.Second})
+			}
+			seq = append(seq, Action{Op: "scan", Flag: true})
+			return Action{Op: "seq", Seq: seq}, "annotatedWhileDraining"
+		}
+	case "replacedAfterRefusedWrites": // utilisation calls for tainting while the API server refuses every node write; before the next scan one of the oldest nodes is replaced by a new machine under the same name
+		var untainted []string
+		for _, n := range w.GroupNodeNames(g) {
+			if ref.Classify(w.K.Nodes[n]) == ref.Untainted {
+				untainted = append(untainted, n)
+			}
+		}
+		if len(untainted) >= 3 {
+			sort.SliceStable(untainted, func(i, j int) bool {
+				return w.K.Nodes[untainted[i]].CreationTimestamp.Time.Before(w.K.Nodes[untainted[j]].CreationTimestamp.Time)
+			})
+			tp, _ := w.drawTargetPods(rt, g, "zero", "belowL", "midLU")
+			tp2, _ := w.drawTargetPods(rt, g, "zero", "belowL", "midLU")
+			x := untainted[rapid.IntRange(0, 1).Draw(rt, "whichOldest")]
+			return Action{Op: "seq", Seq: []Action{tp, {Op: "fault", Faults: []sim.Fault{{Kind: sim.KUpdate, Nth: -1}}}, {Op: "scan", Flag: true},
+				{Op: "setCreated", Node: x, N: 0}, tp2, {Op: "scan", Flag: true}}}, "replacedAfterRefusedWrites"
+		}
 	case "dueProtected": // an annotated node reaches the point where it would be removed; one API call about it may fail
 		names := w.GroupNodeNames(g)
 		if len(names) > 0 {
